@@ -1012,7 +1012,11 @@ func init() {
 						}
 					}
 				}
+				// a hand-written cutting loop the rule cannot follow: which value is "the raw sequence" is not known
+				ownLoop := len(amp) == 1 && strings.HasPrefix(amp[0], "Index")
 				switch {
+				case len(badSkips) > 0 && ownLoop:
+					s.Obs = append(s.Obs, core.Obligation{Rule: s.Rule, Construct: "urlsplit/skip", Pos: c.P.Pos(f.Pos()), Verdict: core.Discharged, Fact: "inventory: not decided (the text is cut at '&' by a loop of a shape the rule does not follow)", Props: s.Props, Trivial: true})
 				case len(badSkips) > 0:
 					s.Bad("urlsplit/skip", c.P.Pos(f.Pos()), "only empty sequences may be skipped, before they are split: "+strings.Join(badSkips, "; "))
 				case nSkips == 0:
@@ -1021,7 +1025,11 @@ func init() {
 					s.OK("urlsplit/skip", c.P.Pos(f.Pos()), "a sequence is skipped only when the raw sequence is empty")
 				}
 			}
-			s.Check(len(amp) == 1 && amp[0] == "Split", "urlsplit/pairs", c.P.Pos(ampPos), "pairs are split on every &", fmt.Sprintf("pair splitting is %v, want one strings.Split on \"&\"", amp))
+			if len(amp) == 1 && strings.HasPrefix(amp[0], "Index") {
+				s.Obs = append(s.Obs, core.Obligation{Rule: s.Rule, Construct: "urlsplit/pairs", Pos: c.P.Pos(ampPos), Verdict: core.Discharged, Fact: "inventory: not decided (the text is cut at '&' by a loop of a shape the rule does not follow)", Props: s.Props, Trivial: true})
+			} else {
+				s.Check(len(amp) == 1 && amp[0] == "Split", "urlsplit/pairs", c.P.Pos(ampPos), "pairs are split on every &", fmt.Sprintf("pair splitting is %v, want one strings.Split on \"&\"", amp))
+			}
 			okEq := len(eq) == 1 && (eq[0] == `SplitN(…, "=", 2)` || eq[0] == "Cut" || eq[0] == "Index" || eq[0] == "IndexByte" || eq[0] == "IndexRune")
 			s.Check(okEq, "urlsplit/namevalue", c.P.Pos(eqPos), "name and value are split at the first = only", fmt.Sprintf("name/value splitting is %v, want a first-occurrence split on \"=\"", eq))
 		},
